@@ -893,6 +893,39 @@ class Models:
                 else:
                     out.append(c + d if lo <= c <= hi else c)
             return SymSeq(out, seq.elem, seq.pytype)
+        if name in ('strip', 'lstrip', 'rstrip') and not args:
+            pc = seq.plain_cells()
+            if pc is None:
+                raise CannotEncode(f'{name} on symbolic-extent view')
+            # ASCII whitespace (bytes: 9-13, 32; str additionally 28-31; non-ASCII str is outside the documented domain)
+            ws = (9, 10, 11, 12, 13, 32) + ((28, 29, 30, 31) if seq.pytype in ('str', 'Seq') else ())
+            isws = [(lor(*[c == w for w in ws]) if is_sym(c) else c in ws) for c in pc]
+            n = len(pc)
+            alts = []
+            for i in range(n + 1):            # i leading characters removed
+                if name == 'rstrip' and i:
+                    break
+                lead = land(*isws[:i], lnot(isws[i]) if i < n else True)
+                if i == n:
+                    alts.append((simp_bool(lead), SymSeq([], seq.elem, seq.pytype)))
+                    break
+                for j in range(n - i):        # j trailing characters removed
+                    if name == 'lstrip' and j:
+                        break
+                    trail = land(*isws[n - j:], lnot(isws[n - j - 1]))
+                    if name == 'lstrip':
+                        trail = True
+                    if name == 'rstrip':
+                        lead = True
+                    c = simp_bool(land(lead, trail))
+                    if c is not False:
+                        alts.append((c, SymSeq(pc[i:n - j], seq.elem, seq.pytype)))
+            if name == 'rstrip':
+                alts.append((simp_bool(land(*isws)), SymSeq([], seq.elem, seq.pytype)))
+            alts = [(c, v) for c, v in alts if c is not False]
+            if len(alts) == 1 and alts[0][0] is True:
+                return alts[0][1]
+            return PyChoice(alts)
         if name in ('islower', 'isupper'):
             pc = seq.plain_cells()
             if pc is None:
@@ -950,11 +983,9 @@ class Models:
             ct = dtype_ctype(dt)
             if kwargs.get('copy', True) is False and ct == seq.elem:
                 return seq
-            pc = seq.plain_cells()
-            if pc is None:
-                raise CannotEncode('astype of symbolic-extent array')
-            out = [ip.to_ctype(CVal(c, seq.elem), ct).term for c in pc]
-            return SymSeq(out, ct, 'ndarray', dtype=dt.str)
+            # element-wise C conversion (wraps when narrowing); a fresh buffer with the same extent
+            out = [ip.to_ctype(CVal(c, seq.elem), ct).term for c in seq.cells]
+            return SymSeq(out, ct, 'ndarray', seq.off, seq.length, True, seq.name, dt.str)
         if name == '__len__':
             return seq.length
         raise CannotEncode(f'sequence method {name}')
